@@ -116,8 +116,12 @@ def table_cases(draw):
         if segs and d.pct() < 35:
             # nested / overlapping with an earlier entry
             ps, pl = segs[d.int(0, len(segs) - 1)][:2]
-            s = (ps + d.choice([0, 2, 2 * d.int(0, 8), max(0, pl - 2)])) & (U64 - 1)
-            l = d.choice([2, 4, 1000, 2 * d.int(1, 600), pl])
+            # including one-word overlaps / exact adjacency through odd starts and lengths
+            s = (ps + d.choice([0, 2, 2 * d.int(0, 8), max(0, pl - 2), max(0, pl - 1), pl, pl + 1, 1, 3])) & (U64 - 1)
+            l = d.choice([2, 4, 1000, 2 * d.int(1, 600), pl, 1, 3, 5, pl + 1, max(1, pl - 1)])
+            if d.pct() < 25:
+                # ... or the earlier entry grows by one word into this one
+                segs[-1][1] = (s - segs[-1][0] + 1) & (U64 - 1) if s > segs[-1][0] else segs[-1][1]
         segs.append([s & (U64 - 1), l & (U64 - 1), ds & (U64 - 1), dl & (U64 - 1)])
     if segs and d.pct() < 50:
         # make it runnable: a first op that touches a drawn word, then a self loop
